@@ -79,6 +79,11 @@ class C11(ProtoSpec):
         ProtoSpec.__init__(self, tier)
         self.cfgs = [self.cfg, self.cfg]
 
+    def deepen(self, k):
+        self.d1 += k // 2
+        self.d2 += k - k // 2
+        self.depth = self.d1 + 1 + self.d2
+
     def enabled(self, worlds, mon):
         n = mon.n_events
         evs = []
